@@ -3,7 +3,14 @@
 Tie: validate_marker_lookup, create_marker_cache_from_specified_markers (HDF5 cache written and
 read back), write_query_markers_to_h5, serialize_markers on generated (tree, table, reference gene
 order, query gene order, min_markers) against Model/Markers.v; the declarative `spec_markers`
-(computed by the extracted model from the ORIGINAL table) against the genes found in the cache."""
+(computed by the extracted model from the ORIGINAL table) against the genes found in the cache, in the
+table reported by serialize_markers and in the table returned by validate_marker_lookup; the error clauses
+(unknown marker / root without usable marker) judged on every ACCEPTED case.
+
+Reporting: a failure of the property's own statement is reported at once, with its input.  A case on
+which only the correspondence fails is kept back; at the end the property's statement is evaluated on
+neighbours of the first such cases and on a fresh batch, a failing one is reported with its input, and
+only then the correspondence failures are reported (no-failing-input-found)."""
 import ast
 import json
 import pathlib
@@ -19,6 +26,11 @@ EXTRA_LEVELS = ['zz_dropped', 'aa_unknown']          # level names that are neve
 
 E_VALIDATE, E_NOWHERE, E_NO_OVERLAP, E_NOT_IN_REF, E_KEY, E_INDEX = 1, 2, 3, 4, 5, 6
 F7_CLASS = 'F7-entry-of-parent-needing-no-markers-aborts-cache-creation'
+C_SPEC = 'c08-used-genes-differ-from-spec'
+C_SPEC_VALIDATE = 'c08-validated-genes-differ-from-spec'
+C_UNKNOWN = 'c08-unknown-marker-accepted'
+C_ROOT = 'c08-root-without-usable-marker-accepted'
+N_FIRST = 5            # model calls per case in the first phase
 
 
 # ------------------------------------------------------------------ generators
@@ -333,12 +345,13 @@ def first_phase_cases(case, rn):
     q = rn.genes(case['query'])
     r = rn.genes(case['ref'])
     m = case['min_markers']
-    return [(801, [tree, tb, q, m]), (802, [[tree], tb, r, q, m]), (803, [tb, r, q]), (805, [tree, tb, q, m])]
+    return [(801, [tree, tb, q, m]), (802, [[tree], tb, r, q, m]), (803, [tb, r, q]), (805, [tree, tb, q, m]),
+            (808, [tree, tb, r, q, m])]
 
 
 def check_case(ctx, case, obs, rn, res1, res2):
     """res1 = results of first_phase_cases; res2 = (serialize on observed cache, used on observed cache) or None."""
-    m_val, m_create, m_write, m_spec = res1
+    m_val, m_create, m_write, m_spec, m_unknown = res1
     corr = []          # (model function, message)
     prop = []          # (class, message)
     # ---- (a) validate_marker_lookup
@@ -388,9 +401,18 @@ def check_case(ctx, case, obs, rn, res1, res2):
     if not obs['table_untouched']:
         prop.append(('input-table-mutated', 'the caller\'s marker table was modified'))
     # ---- (b) the property's own statement on the observed output
+    # spec = the declarative spec_markers (Model/Markers.v, tag 805), computed from the ORIGINAL table; nothing of
+    # the model's step-by-step results (m_val, m_create) is used below
     spec = {rn.key_inv(k): rn.genes_inv(v) for k, v in m_spec[1]}      # parents with >= 2 children
     multi = [k for k, n in obs['children'].items() if n >= 2]
     assert sorted(multi) == sorted(spec.keys()), (multi, spec)
+    qset = set(case['query'])
+    if ov['ok']:
+        for k in multi:
+            got = sorted(set(ov['table'].get(k, [])) & qset)
+            if got != sorted(spec[k]):
+                prop.append((C_SPEC_VALIDATE, f'parent {k}: validate_marker_lookup returns {got} (restricted to the '
+                                              f'query), the table implies {sorted(spec[k])}'))
     if oc['ok']:
         cache = oc['cache']
         if cache['query_names'] != list(case['query']) or cache['ref_names'] != list(case['ref']):
@@ -407,7 +429,7 @@ def check_case(ctx, case, obs, rn, res1, res2):
             if ri != sorted(ri):
                 prop.append(('reference-order', f'parent {k}: reference indices not ascending {ri}'))
             if sorted(set(rnames)) != sorted(spec[k]) or len(set(rnames)) != len(rnames):
-                prop.append(('used-differs-from-spec', f'parent {k}: cache has {sorted(rnames)}, the table implies {sorted(spec[k])}'))
+                prop.append((C_SPEC, f'parent {k}: cache has {sorted(rnames)}, the table implies {sorted(spec[k])}'))
             if any(g not in case['query'] for g in rnames):
                 prop.append(('gene-not-in-query', f'parent {k}: {rnames}'))
         osr = obs['serialize']
@@ -422,6 +444,21 @@ def check_case(ctx, case, obs, rn, res1, res2):
                 elif k in cache['groups']:
                     if rep[k] != [cache['ref_names'][i] for i in cache['groups'][k][0]]:
                         prop.append(('reported-differs-from-used', f'{k}: reported {rep[k]}'))
+                    if k in spec and sorted(rep[k]) != sorted(spec[k]):
+                        prop.append((C_SPEC, f'parent {k}: serialize_markers reports {sorted(rep[k])}, '
+                                             f'the table implies {sorted(spec[k])}'))
+        # the error clauses, judged on the ACCEPTED case
+        # (i) a marker unknown to the reference, listed under a parent of the tree.  Which (key, gene) pairs demand
+        #     the error is the declarative `unknown_demanded` (tag 808) of the ORIGINAL table: every unknown gene,
+        #     except one that the query lacks too in an entry that is replaced by its patched version (documented).
+        demanded = [(rn.key_inv(k), rn.gene_inv[g]) for k, g in m_unknown[1]]
+        if demanded:
+            prop.append((C_UNKNOWN, f'cache created although {demanded[:4]} (key, gene) are listed markers that are '
+                                    f'not reference genes'))
+        # (ii) a root that has to choose between >= 2 children and has no usable marker
+        if obs['children']['None'] >= 2 and not (set(case['table'].get('None', [])) & qset):
+            prop.append((C_ROOT, f"cache created although the root has {obs['children']['None']} children and none of "
+                                 f"its markers {case['table'].get('None')} is in the query"))
         if res2 is not None:
             m_ser, m_used = res2
             if m_ser[0] == 0:
@@ -467,7 +504,34 @@ def check_case(ctx, case, obs, rn, res1, res2):
 
 def describe(case, obs, res1):
     return {'kind': 'function', 'case': case, 'observed': obs,
-            'model': {'validate': res1[0], 'create': res1[1], 'write': res1[2], 'spec': res1[3]}}
+            'model': {'validate': res1[0], 'create': res1[1], 'write': res1[2], 'spec': res1[3],
+                      'unknown_demanded': res1[4]}}
+
+
+def evaluate(ctx, cases, first_idx=0):
+    """Implementation and model on a list of cases -> [(case, renaming, observed, res1, corr, prop)]."""
+    rns = [Renaming(c) for c in cases]
+    obs = [run_impl(c, ctx.scratch, first_idx + i) for i, c in enumerate(cases)]
+    first = []
+    for c, rn in zip(cases, rns):
+        first += first_phase_cases(c, rn)
+    r1 = ctx.model(first)
+    second, second_idx = [], []
+    for i, (c, rn, o) in enumerate(zip(cases, rns, obs)):
+        if o['create']['ok']:
+            cs = cache_sx(rn, o['create']['cache'])
+            second.append((804, [cs, rn.genes(o['create']['cache']['ref_names']), rn.tree_sx(c['tree'])]))
+            second.append((807, [cs, rn.genes(o['create']['cache']['ref_names']),
+                                 rn.genes(o['create']['cache']['query_names'])]))
+            second_idx.append(i)
+    r2 = ctx.model(second) if second else []
+    r2 = {i: (r2[2 * j], r2[2 * j + 1]) for j, i in enumerate(second_idx)}
+    out = []
+    for i, (c, rn, o) in enumerate(zip(cases, rns, obs)):
+        res1 = r1[N_FIRST * i:N_FIRST * i + N_FIRST]
+        corr, prop = check_case(ctx, c, o, rn, res1, r2.get(i))
+        out.append((c, rn, o, res1, corr, prop))
+    return out
 
 
 def function_cases(ctx):
@@ -475,31 +539,106 @@ def function_cases(ctx):
     n = ctx.n(1500, 40000)
     batch = 500
     done = 0
+    pending = []       # cases on which the correspondence fails and no property failure was reported
     while done < n:
         m = min(batch, n - done)
         cases = [gen_case(rng) for _ in range(m)]
-        rns = [Renaming(c) for c in cases]
-        obs = [run_impl(c, ctx.scratch, done + i) for i, c in enumerate(cases)]
-        first = []
-        for c, rn in zip(cases, rns):
-            first += first_phase_cases(c, rn)
-        r1 = ctx.model(first)
-        second, second_idx = [], []
-        for i, (c, rn, o) in enumerate(zip(cases, rns, obs)):
-            if o['create']['ok']:
-                cs = cache_sx(rn, o['create']['cache'])
-                second.append((804, [cs, rn.genes(o['create']['cache']['ref_names']), rn.tree_sx(c['tree'])]))
-                second.append((807, [cs, rn.genes(o['create']['cache']['ref_names']),
-                                     rn.genes(o['create']['cache']['query_names'])]))
-                second_idx.append(i)
-        r2 = ctx.model(second)
-        r2 = {i: (r2[2 * j], r2[2 * j + 1]) for j, i in enumerate(second_idx)}
-        for i, (c, rn, o) in enumerate(zip(cases, rns, obs)):
-            res1 = r1[4 * i:4 * i + 4]
-            corr, prop = check_case(ctx, c, o, rn, res1, r2.get(i))
+        for c, rn, o, res1, corr, prop in evaluate(ctx, cases, done):
             book(ctx, c, o, res1)
-            report(ctx, c, o, res1, corr, prop)
+            report(ctx, c, o, res1, corr, prop, pending)
         done += m
+    if pending:
+        search_failing_input(ctx, pending, done)
+        for c, o, res1, corr in pending:
+            fn, msg = corr[0]
+            d = dict(describe(c, o, res1))
+            d['class'] = 'corr:' + fn
+            d['correspondence_failures'] = corr
+            ctx.violation(f'model and implementation disagree ({fn}): {msg}'[:600], d, no_input=True)
+
+
+# ------------------------------------------------------------------ when the correspondence breaks
+def neighbours(rng, case, limit=160):
+    """Inputs close to `case` (same tree): other min_markers, query / reference gene sets changed by one gene,
+    table entries removed, emptied, swapped, extended by one gene."""
+    out = []
+
+    def variant(**kw):
+        c = json.loads(json.dumps(case))
+        c.update(kw)
+        out.append(c)
+    for m in range(0, 7):
+        if m != case['min_markers']:
+            variant(min_markers=m)
+    listed = sorted({g for v in case['table'].values() for g in v})
+    genes = sorted(set(listed) | set(case['ref']) | set(case['query']))
+    for g in sorted(set(case['query'])):
+        variant(query=[x for x in case['query'] if x != g], dup_names=None)
+    for g in genes:
+        if g not in case['query']:
+            variant(query=list(case['query']) + [g])
+    for g in sorted(set(case['ref'])):
+        if len(set(case['ref'])) > 1:
+            variant(ref=[x for x in case['ref'] if x != g], dup_names=None)
+    parents = ['None'] + [f'{lv}/{nd}' for lv in case['tree']['hierarchy'][:-1] for nd in case['tree'][lv]]
+    for k in case['table']:
+        variant(table={a: b for a, b in case['table'].items() if a != k})
+        if case['table'][k]:
+            variant(table={a: ([] if a == k else b) for a, b in case['table'].items()})
+    pairs = [(a, b) for i, a in enumerate(parents) for b in parents[i + 1:]]
+    rng.shuffle(pairs)
+    for a, b in pairs[:40]:
+        tb = dict(case['table'])
+        va, vb = tb.get(a), tb.get(b)
+        if va == vb:
+            continue
+        for k, v in ((a, vb), (b, va)):
+            if v is None:
+                tb.pop(k, None)
+            else:
+                tb[k] = v
+        variant(table=tb)
+    for _ in range(40):
+        if not genes:
+            break
+        k = rng.choice(parents)
+        tb = dict(case['table'])
+        tb[k] = list(tb.get(k, [])) + [rng.choice(genes)]
+        variant(table=tb)
+    for c in out:
+        c['extra_keys'] = [k for k in c['extra_keys'] if k in c['table']]
+    if len(out) > limit:
+        out = rng.sample(out, limit)
+    return out
+
+
+def search_failing_input(ctx, pending, idx0):
+    """The correspondence is broken: look for an input on which the property's own statement fails on the
+    implementation -- on neighbours of the first disagreeing cases, then on a fresh batch of the generator."""
+    rng = ctx.rng
+    found = 0
+    tried = 0
+    for c, o, res1, corr in pending[:8]:
+        nb = neighbours(rng, c)
+        tried += len(nb)
+        for c2, rn2, o2, r2, corr2, prop2 in evaluate(ctx, nb, idx0):
+            if prop2 and report_property(ctx, c2, o2, r2, corr2, prop2, found_by={
+                    'search': 'neighbour of a case on which model and implementation disagree',
+                    'disagreeing_case': c, 'disagreement': corr[:2]}):
+                found += 1
+                break
+        if found >= 2:
+            break
+    if not found:
+        fresh = [gen_case(rng) for _ in range(ctx.n(1500, 6000))]
+        tried += len(fresh)
+        for c2, rn2, o2, r2, corr2, prop2 in evaluate(ctx, fresh, idx0):
+            if prop2 and report_property(ctx, c2, o2, r2, corr2, prop2, found_by={
+                    'search': 'fresh batch after a correspondence failure'}):
+                found += 1
+                if found >= 2:
+                    break
+    ctx.extra['with_input_search'] = {'disagreeing_cases': len(pending), 'inputs_tried': tried, 'failing_inputs_found': found}
 
 
 def book(ctx, c, o, res1):
@@ -518,6 +657,11 @@ def book(ctx, c, o, res1):
             ctx.dist('patched_with', 'none' if not pw else ('root-only' if pw == ['None'] else
                                                            ('ancestors+root' if 'None' in pw else f'{len(pw)}-ancestor(s)')))
     ctx.dist('extra_keys', len(c['extra_keys']))
+    refset = set(c['ref'])
+    if any(g not in refset for k in o['children'] for g in c['table'].get(k, [])):
+        # a parent of the tree lists a gene that is no reference gene: rejected, or accepted under the documented excuse
+        ctx.dist('unknown_marker_under_a_parent', 'accepted (excused: absent from the query, entry replaced)'
+                 if o['create']['ok'] else f'rejected (error{o["create"]["err"]})')
     if c['dup_names']:
         ctx.dist('duplicate_names', c['dup_names'])
     if nontriv:
@@ -526,24 +670,36 @@ def book(ctx, c, o, res1):
                     'reported': o.get('serialize', {}).get('table')}, limit=3)
 
 
-def report(ctx, c, o, res1, corr, prop):
-    if not corr and not prop:
-        return
-    ctx.disagreements_checked += 1
-    desc = describe(c, o, res1)
-    if prop:
-        cls, msg = prop[0]
-        d = dict(desc)
+def report_property(ctx, c, o, res1, corr, prop, found_by=None):
+    """One violation WITH input per class of property failure; True if one was reported (i.e. is not a known finding)."""
+    reported = False
+    seen = set()
+    classes = {cls for cls, _ in prop}
+    for cls, msg in prop:
+        if cls in seen:
+            continue
+        if cls == C_SPEC_VALIDATE and C_SPEC in classes:
+            continue          # same defect seen twice on this input; the cache is what is used (all_property_failures has both)
+        seen.add(cls)
+        d = dict(describe(c, o, res1))
         d['class'] = cls
         d['all_property_failures'] = prop
         d['correspondence_failures'] = corr
-        ctx.violation(f'C08 fails on a generated case: {msg}'[:600], d)
-    if corr:
-        fn, msg = corr[0]
-        d = dict(desc)
-        d['class'] = 'corr:' + fn
-        d['correspondence_failures'] = corr
-        ctx.violation(f'model and implementation disagree ({fn}): {msg}'[:600], d, no_input=True)
+        if found_by:
+            d['found_by'] = found_by
+        if ctx.violation(f'C08 fails on a generated case: {msg}'[:600], d):
+            reported = True
+    return reported
+
+
+def report(ctx, c, o, res1, corr, prop, pending):
+    if not corr and not prop:
+        return
+    ctx.disagreements_checked += 1
+    reported = report_property(ctx, c, o, res1, corr, prop) if prop else False
+    if corr and not reported:
+        # no (new) property failure on this very input: kept back for the search of a failing input
+        pending.append((c, o, res1, corr))
 
 
 def run(ctx):
@@ -556,6 +712,11 @@ def run(ctx):
         "'metadata' and 'log' keys of the table are ignored by the code; they are passed to the implementation but not to the model",
         'duplicate gene names in the query or reference list occur in 8% of the cases (the last column wins, as in the dicts of the code)',
         'trees are valid strict trees (accepted by TaxonomyTree)',
+        "clause 'a marker unknown to the reference ends the run with an error' is judged on accepted cases for the keys "
+        "that are parents of the tree (any number of children); excused, as documented in DESIGN/Props (the code drops it "
+        "silently): a gene absent from the reference AND from the query in the entry of a non-root parent with >= 2 "
+        "children and fewer than min_markers usable own genes that has something to patch with (Markers.entry_replaced); "
+        "keys that are no parents of the tree are compared through the correspondence only",
     ]
     function_cases(ctx)
 
@@ -577,7 +738,7 @@ def replay(ctx, rec):
     corr, prop = check_case(ctx, case, obs, rn, res1, res2)
     print('INPUT', json.dumps(case, indent=1))
     print('IMPLEMENTATION', json.dumps(obs, indent=1, default=str))
-    print('MODEL', json.dumps({'validate': res1[0], 'create': res1[1], 'spec': res1[3]}, default=str))
+    print('MODEL', json.dumps({'validate': res1[0], 'create': res1[1], 'spec': res1[3], 'unknown_demanded': res1[4]}, default=str))
     print('CORRESPONDENCE', corr)
     print('PROPERTY', prop)
     import shutil
